@@ -198,10 +198,10 @@ type gval struct {
 	Map  []string // sorted dump of a SpecificItems map, Coq syntax per entry
 }
 
-func gs(s string) gval   { return gval{Ty: tStr, S: s} }
-func gi(v int64) gval    { return gval{Ty: tInt, I: big.NewInt(v)} }
-func gu(v uint64) gval   { return gval{Ty: tInt, I: new(big.Int).SetUint64(v)} }
-func gf(v float64) gval  { return gval{Ty: tNum, Bits: math.Float64bits(v)} }
+func gs(s string) gval  { return gval{Ty: tStr, S: s} }
+func gi(v int64) gval   { return gval{Ty: tInt, I: big.NewInt(v)} }
+func gu(v uint64) gval  { return gval{Ty: tInt, I: new(big.Int).SetUint64(v)} }
+func gf(v float64) gval { return gval{Ty: tNum, Bits: math.Float64bits(v)} }
 func gm(m map[interface{}]int64) gval {
 	return gval{Ty: tItems, Map: dumpMap(m)}
 }
@@ -508,7 +508,7 @@ func genItems(r *rng.R) []witem {
 	n := r.Intn(5)
 	var out []witem
 	for i := 0; i < n; i++ {
-		kind := int64(r.Intn(6)) - 0
+		kind := r.PickI(0, 0, 1, 1, 2, 2, 3, 3, 3, 4, 5)
 		if r.Chance(1, 12) {
 			kind = r.PickI(-1, 7, 100)
 		}
@@ -521,7 +521,8 @@ func genItems(r *rng.R) []witem {
 		case 2:
 			s = pickS(r, "true", "false", "maybe", "1", "0", "T", "F", "TRUE", "False", "t", "yes")
 		case 3:
-			s = pickS(r, "1.25", "2.000001", "2.000009", "NaN", "abc", "0", "-0", "-0.000001", "1e3", "Inf", ".5", "1.", "0x1p-2", "1e400", "7")
+			s = pickS(r, "1.25", "2.000001", "2.000009", "0.12345", "1.00004", "1.000049", "3.14159", "-0.00001", "0.00005", "NaN", "abc", "0", "-0",
+				"-0.000001", "1e3", "Inf", ".5", "1.", "0x1p-2", "1e400", "7")
 		default:
 			s = "z"
 		}
@@ -793,13 +794,36 @@ type wcase struct {
 	Expect  string  `json:"expect"` // rules | err | nil | nilslice | unknown
 	Rules   []wrule `json:"described,omitempty"`
 	Nils    []int   `json:"nil_elements_at,omitempty"` // positions (in the final list) of null elements
-	Real    bool    `json:"loadable_values,omitempty"`  // values from the rule managers' cheap domain: also delivered to a real handler
+	Real    bool    `json:"loadable_values,omitempty"` // values from the rule managers' cheap domain: also delivered to a real handler
 	encOf   bool
 }
 
+// fixed documents given to every module's parser on every run (ids wireBase+80000+…)
+var fixedDocs = []struct {
+	payload, expect string
+	nils            []int
+}{
+	{"", "nil", nil}, {"null", "nilslice", nil}, {"[]", "rules", nil}, {"[null]", "rules", []int{0}}, {" ", "err", nil},
+	{"[", "err", nil}, {"{}", "err", nil}, {"[{}", "err", nil},
+}
+
+const fixedBase = wireBase + 80000
+
+func fixedWire(id int) wcase {
+	k := id - fixedBase
+	mod, d := k/len(fixedDocs), fixedDocs[k%len(fixedDocs)]
+	return wcase{ID: id, Mod: mod, Module: moduleNames[mod], Stream: "D-malformed", Variant: "fixed-document",
+		Payload: d.payload, Expect: d.expect, Nils: d.nils}
+}
+
+var moduleNames = []string{"flow", "system", "circuitbreaker", "hotspot", "isolation"}
+
 func genWire(r *rng.R, id int) wcase {
+	if id >= fixedBase && id < fixedBase+5*len(fixedDocs) {
+		return fixedWire(id)
+	}
 	mod := r.Intn(5)
-	c := wcase{ID: id, Mod: mod, Module: []string{"flow", "system", "circuitbreaker", "hotspot", "isolation"}[mod]}
+	c := wcase{ID: id, Mod: mod, Module: moduleNames[mod]}
 	c.Real = r.Chance(1, 2)
 	rs := genWrules(r, mod, c.Real)
 	switch k := r.Intn(10); {
@@ -1287,6 +1311,9 @@ func runWire(a cli.Args, root *rng.R, rep *emit.Report, sh *emit.Shards, only in
 	}
 	for i := 0; i < n; i++ {
 		runOne(wireBase+i, i < nCorr)
+	}
+	for i := 0; i < 5*len(fixedDocs); i++ {
+		runOne(fixedBase+i, !a.Search)
 	}
 	// the Go wire structs' json tags and field types against the model's schemas
 	if sh != nil {
